@@ -5,6 +5,8 @@ use std::fmt::Debug;
 use std::fmt::Write;
 use std::panic::{catch_unwind, AssertUnwindSafe};
 use structdiff::{Difference, StructDiff};
+#[cfg(feature = "ns")]
+use nanoserde::{DeBin, SerBin};
 
 #[derive(Debug, Clone, PartialEq)]
 pub enum Val { Atom(i64), None, Some(Box<Val>), Seq(Vec<i64>), FMap(Vec<(i64, i64)>), RMap(Vec<(i64, Val)>), Struct(Vec<Val>) }
@@ -62,6 +64,17 @@ impl<T: Fconv + HasOptionMarker> Fconv for Option<T> {
     fn fv(v: &Val, _: u8) -> Self { match v { Val::None => None, Val::Some(x) => Some(T::fv(x, 0)), _ => panic!("option expected") } }
     fn tv(&self, _: u8) -> Val { match self { None => Val::None, Some(x) => Val::Some(Box::new(x.tv(0))) } }
 }
+/// Debug rendering of diffs when the crate is built with the `dbg` feature (structdiff/debug_diffs); otherwise only entry counts are printed
+pub trait MaybeDebug { fn dbg(&self) -> String; }
+#[cfg(feature = "dbg")]
+impl<T: Debug> MaybeDebug for T { fn dbg(&self) -> String { format!("{:?}", self) } }
+#[cfg(not(feature = "dbg"))]
+impl<T> MaybeDebug for T { fn dbg(&self) -> String { String::from("<built without debug_diffs>") } }
+fn show_diff<D: MaybeDebug>(d: &Vec<D>) -> String {
+    if cfg!(feature = "dbg") { format!("[{}]", d.iter().map(|x| x.dbg()).collect::<Vec<_>>().join(", ")) } else { format!("N={}", d.len()) }
+}
+fn show_opt<D: MaybeDebug>(d: &Option<D>) -> String { match d { None => "-".to_string(), Some(x) => if cfg!(feature = "dbg") { x.dbg() } else { "N=1".to_string() } } }
+
 /// generated setters, by field index (None = this field has no generated setter)
 pub trait SetField: StructDiff + Sized {
     fn set_field(&mut self, _i: usize, _v: &Val) -> Option<Option<<Self as StructDiff>::Diff>> { None }
@@ -72,7 +85,13 @@ pub trait HasOptionMarker {}
 
 /// the plain enum: unit, tuple and struct variants; one comparable value encoded as an integer
 #[derive(Debug, Clone, PartialEq, Difference)]
+#[cfg_attr(feature = "ns", derive(nanoserde::SerBin, nanoserde::DeBin))]
+#[cfg_attr(feature = "sd", derive(serde::Serialize, serde::Deserialize))]
 pub enum En { A, B(i64), C { x: i64, y: i64 } }
+
+/// wire observations (C14), available when the crate is built with the codec features; a no-op otherwise
+pub trait Wire: StructDiff + Sized { fn wire(_id: &str, _a: &Self, _b: &Self, _x: &Self, _out: &mut String) {} }
+impl Wire for En {}
 impl Fconv for En {
     fn fv(v: &Val, _: u8) -> Self { let z = i64::fv(v, 0); match z.rem_euclid(3) { 0 => En::A, 1 => En::B((z - 1) / 3), _ => En::C { x: (z - 2) / 3, y: (z - 2) / 3 + 1 } } }
     fn tv(&self, _: u8) -> Val { Val::Atom(match self { En::A => 0, En::B(n) => 3 * n + 1, En::C { x, .. } => 3 * x + 2 }) }
@@ -83,7 +102,7 @@ fn line(out: &mut String, id: &str, tag: &str, v: Option<String>) { writeln!(out
 
 /// all observations for one case line (PAIR or HIST) of shape type T
 pub fn run<T>(toks: &[&str]) -> String
-where T: StructDiff + Fconv + Clone + PartialEq + Debug + SetField, T::Diff: Debug + Clone {
+where T: StructDiff + Fconv + Clone + PartialEq + Debug + SetField + Wire, T::Diff: MaybeDebug + Clone {
     let mut out = String::new();
     let kind = toks[0];
     let id = toks[1];
@@ -92,13 +111,15 @@ where T: StructDiff + Fconv + Clone + PartialEq + Debug + SetField, T::Diff: Deb
         assert_eq!(toks[i], "A"); i += 1; let a = T::fv(&parse_val(toks, &mut i), 0);
         assert_eq!(toks[i], "B"); i += 1; let b = T::fv(&parse_val(toks, &mut i), 0);
         assert_eq!(toks[i], "X"); i += 1; let x = T::fv(&parse_val(toks, &mut i), 0);
+        assert_eq!(toks[i], "C"); i += 1; let c = T::fv(&parse_val(toks, &mut i), 0);
         assert_eq!(toks[i], "SUB"); i += 1;
         let sub: Vec<usize> = toks[i..].iter().map(|t| t.parse().unwrap()).collect();
         let (a0, b0, x0) = (a.clone(), b.clone(), x.clone());
         let d = guard(|| a.diff(&b));
-        line(&mut out, id, "D", d.as_ref().map(|d| format!("{:?}", d)));
+        line(&mut out, id, "D", d.as_ref().map(|d| show_diff(d)));
         let dr: Option<Vec<T::Diff>> = guard(|| a.diff_ref(&b).into_iter().map(Into::into).collect());
-        line(&mut out, id, "DR", dr.as_ref().map(|d| format!("{:?}", d)));
+        line(&mut out, id, "DR", dr.as_ref().map(|d| show_diff(d)));
+        T::wire(id, &a, &b, &x, &mut out);
         if a != a0 || b != b0 { writeln!(out, "ORACLE-FAIL {} computing a diff modified an argument", id).unwrap(); }
         if let Some(d) = d {
             line(&mut out, id, "A", guard(|| vs(&a.clone().apply(d.clone()).tv(0))));
@@ -107,6 +128,14 @@ where T: StructDiff + Fconv + Clone + PartialEq + Debug + SetField, T::Diff: Deb
             line(&mut out, id, "AM", guard(|| { let mut m = a.clone(); m.apply_mut(d.clone()); vs(&m.tv(0)) }));
             line(&mut out, id, "AS", guard(|| { let mut m = a.clone(); for e in d.clone() { m.apply_single(e); } vs(&m.tv(0)) }));
             line(&mut out, id, "X", guard(|| vs(&x.clone().apply(d.clone()).tv(0))));
+            // two batched steps a->b, b->c in ONE entry list (fields may be named twice, entries interact): the four entry points must still agree
+            if let Some(d2) = guard(|| b.diff(&c)) {
+                let both: Vec<T::Diff> = d.iter().cloned().chain(d2.into_iter()).collect();
+                line(&mut out, id, "A2", guard(|| vs(&a.clone().apply(both.clone()).tv(0))));
+                line(&mut out, id, "AR2", guard(|| vs(&a.apply_ref(both.clone()).tv(0))));
+                line(&mut out, id, "AM2", guard(|| { let mut m = a.clone(); m.apply_mut(both.clone()); vs(&m.tv(0)) }));
+                line(&mut out, id, "AS2", guard(|| { let mut m = a.clone(); for e in both.clone() { m.apply_single(e); } vs(&m.tv(0)) }));
+            }
             // a sub-multiset of the entries in the given order
             let pick: Vec<T::Diff> = if d.is_empty() { vec![] } else { let mut seen = vec![false; d.len()]; let mut p = vec![];
                 for s in &sub { let k = s % d.len(); if !seen[k] { seen[k] = true; p.push(d[k].clone()); } } p };
@@ -143,7 +172,7 @@ where T: StructDiff + Fconv + Clone + PartialEq + Debug + SetField, T::Diff: Deb
                 None => { line(&mut out, id, &format!("E{}", k), None); break; }
                 Some(None) => { writeln!(out, "{} E{} NOSETTER", id, k).unwrap(); }
                 Some(Some(e)) => {
-                    line(&mut out, id, &format!("E{}", k), Some(match &e { None => "-".to_string(), Some(d) => format!("{:?}", d) }));
+                    line(&mut out, id, &format!("E{}", k), Some(show_opt(&e)));
                     if let Some(d) = e { entries.push(d); }
                     let after = match x.tv(0) { Val::Struct(fs) => fs, _ => vec![] };
                     for j in 0..after.len() {
